@@ -4,7 +4,7 @@ import common, zoo as zoolib, filelevel, workloads, shapes
 from common import Pair, proof_stage, rebuild_tools, build_pqh, build_zoo, Lock, TRUSTED_BASE
 
 MODULE = "PQ.Props.C14"
-THEOREMS = ["PQ.C14." + t for t in ("excluded_contributes_nothing", "getFields_insert", "getChildren_congr'", "excluded_inert", "excluded_inert_many", "multi_name_dropped", "embed_eq_inline_fuel", "embed_eq_inline", "upper_not_primitive", "tag_dash_anywhere", "tag_dash_excluded")]
+THEOREMS = ["PQ.C14." + t for t in ("excluded_contributes_nothing", "getFields_insert", "getChildren_congr'", "excluded_inert", "excluded_inert_many", "multi_name_dropped", "embed_eq_inline_fuel", "embed_eq_inline", "upper_not_primitive", "tag_dash_anywhere", "tag_dash_excluded", "exported_test_recognised")]
 
 # ---------------------------------------------------------------- abstract declarations
 # type expr: ("id", name) | ("star", t) | ("arr", t, fixedlen) | ("map", k, v) | ("chan", t) | ("func", [(pname, t)...]) |
@@ -84,8 +84,12 @@ EXOTIC = [ID("int32"), ID("string"), ("star", ID("float64")), ("map", ID("string
           ("func", [("Key", ID("int32")), ("Other", ID("string"))]), ("arr", ID("int32"), True), ("sel", "other", "Thing"),
           ("star", ("sel", "other", "Thing")), ("arr", ID("byte"), False), ("other", "struct{ A int32; B string }"),
           ("other", "interface{ M(X int32) }"), ("arr", ("star", ID("int32")), False), ("map", ID("string"), ("arr", ID("string"), False)),
-          ID("T"), ("star", ID("Missing"))]
-UNEXPORTED = ["secret", "x", "z9", "_hid", "_", "éa", "ßeta"]
+          ID("T"), ("star", ID("Missing")),
+          # an inline struct whose own fields carry tags (the tags of a field's type are not the field's)
+          ("other", 'struct{ A int32 `parquet:"a"`; B string `json:"b" parquet:"bee"` }'),
+          ("star", ("other", 'struct{ Inner []int64 `parquet:"inner"` }'))]
+# unexported names: ASCII lower case, underscore, non-ASCII lower case, letters without case (CJK, Hebrew)
+UNEXPORTED = ["secret", "x", "z9", "_hid", "_", "éa", "ßeta", "名前", "טעם", "データ", "ʻo"]     # 11: coprime with len(EXOTIC)
 
 
 def variants_excluded(base):
